@@ -133,10 +133,20 @@ def rule_e(ctx, ix):
     ok = len(reads) == 1 and _input_read(reads[0], view) is not None
     if ok:
         var = _input_read(reads[0], view)
+        # one whole pass over the inputs (a comprehension or an append loop), reading each input itself
+        from ..util import iterations, enclosing
         pm = parent_map(f.node)
-        comp = pm.get(id(reads[0]))
-        ok = isinstance(comp, ast.ListComp) and len(comp.generators) == 1 and unparse(comp.generators[0].target) == var and \
-            unparse(comp.generators[0].iter) == '%s._from' % f.self_name and not comp.generators[0].ifs
+        ok = False
+        for it, tg, owner, kind in iterations(f.node):
+            if unparse(it) != '%s._from' % f.self_name or unparse(tg) != var or not any(reads[0] is x for x in ast.walk(owner)):
+                continue
+            if kind == 'comp':
+                ok = not any(g.ifs for g in owner.generators)
+            else:
+                st_ = reads[0]
+                while st_ is not None and not isinstance(st_, ast.stmt):
+                    st_ = pm.get(id(st_))
+                ok = st_ in owner.body and not any(isinstance(x, (ast.Break, ast.Continue, ast.Return)) for x in ast.walk(owner))
     ctx.ob(R, f.construct, 'every input of the link is read from the dataset with the requested view', ok,
            detail='ComponentLink.compute no longer reads each of its inputs as data[input, view]: %s' % [unparse(n) for n in reads], where=f.where)
     j = ix.func('glue.core.util.join_component_view')
